@@ -153,6 +153,12 @@ def run(ctx):
             chk.unrecognised("C10.a", f"<anchor> <AtomicGauge as GaugeFn>::{mn}", "missing")
             continue
         inn = ops_on(f, "inner")
+        if any(o[1].startswith("compare_exchange") for o in inn):
+            from props.common import cas_loop
+
+            okl, whyl = cas_loop(f, op, field=FIELD.get("inner", "inner"))
+            chk.ob("C10.a", f.path, okl, whyl if okl else f"gauge {mn} is not a single fetch_update / a compare-exchange retry loop applying {op} to the observed value ({whyl})", f.loc())
+            continue
         ok = len(inn) == 1 and inn[0][1] == "fetch_update"
         if ok:
             clos = [a for a in inn[0][3] if strip_sym(a)[0] == "agg" and strip_sym(a)[1] == "closure"]
